@@ -197,6 +197,9 @@ STEMS = {
     "add_signed", "add_unsigned", "sub_unsigned", "abs_diff", "unsigned_abs", "midpoint", "sqrt", "cbrt",
     "nth_root", "gcd", "lcm", "div_rem", "div_mod_floor", "sum", "product", "bits", "bit", "set_bit",
     "from_bits", "to_bits", "cast_signed", "cast_unsigned", "isqrt",
+    # conversion families: `From::from` (value-preserving, may not truncate), `CastFrom::cast_from` / `As::as_`
+    # (truncating `as` semantics), `TryFrom::try_from` (checked) are different contracts
+    "from", "cast_from", "try_from",
 }
 # complement of a predicate (used when a forwarder negates its head)
 NEGATED = {"lt": "ge", "ge": "lt", "le": "gt", "gt": "le", "eq": "ne", "ne": "eq",
